@@ -1,6 +1,7 @@
 use cfg_aliases::cfg_aliases;
 
 fn main() {
+    println!("cargo::rustc-check-cfg=cfg(compio_verif)");
     cfg_aliases! {
         // Feature
         aio: { any(freebsd, solarish) },
